@@ -244,6 +244,42 @@ def specs(prop='C02'):
                       info=f'pars(shared={case["shared"]}) must answer from cache slot {want!r} only')
         ctx.prove(f'{pre}.lookup.no_write[{label}]', c.version == v0)
 
+    def run_ownl_key(ctx, case, loc, pre, label):
+        """FST.own_lines from its first statement up to (not including) the cache lookup `if cached := self._cache.get(key)`:
+        the slot is determined by the RESOLVED docstr value (argument, or the thread default when the argument is None),
+        so a default that changes between two calls can never be answered from the other default's slot"""
+        body = [s for s in loc.node.body if not (isinstance(s, ast.Expr) and isinstance(s.value, ast.Constant))]
+        k = None
+        for i, s in enumerate(body):
+            if isinstance(s, ast.If) and '_cache.get' in ast.unparse(s.test):
+                k = i
+                break
+        if k is None:
+            raise LookupError('cannot locate the cache lookup of FST.own_lines')
+        c = Cache('self')
+        asked = []
+
+        class _FST:
+            @staticmethod
+            def get_option(name, options=None):
+                asked.append(name)
+                return case['default']
+        resolved = case['default'] if case['docstr'] is None else case['docstr']
+        want = {'strict': 'ownlS', True: 'ownlT', False: 'ownlF'}[resolved]
+        self = SObj('self', {}, _cache=c, parent=SObj('parent', {}), loc=FSTLOC(0, 0, 1, 0))
+        it = Interp({'FST': _FST, 'OPCLS2STR': {}})
+        env = Env()
+        env.vars.update(self=self, whole=True, docstr=case['docstr'])
+        v0 = c.version
+        it.exec_block(body[:k], env)
+        ctx.notes['outcome'] = 'fallthrough'
+        ctx.prove(f'{pre}.key_of_resolved_value[{label}]', env.lookup('key') == want,
+                  info=f'own_lines(docstr={case["docstr"]!r}) with thread default {case["default"]!r} must use slot {want!r}')
+        ctx.prove(f'{pre}.docstr_resolved[{label}]', env.lookup('docstr') == resolved)
+        ctx.prove(f'{pre}.default_read_only_when_none[{label}]', (asked == ['docstr']) == (case['docstr'] is None) and
+                  len(asked) <= 1)
+        ctx.prove(f'{pre}.no_write_before_lookup[{label}]', c.version == v0)
+
     def run_coord(ctx, case, loc, pre, label):
         name = case['attr']
         locv = None
@@ -273,6 +309,9 @@ def specs(prop='C02'):
                  min_obligations=2, notes='non-block nodes; the block branch (decorators, trailing comment) is bounded'),
         Fragment('fst:FST.pars', prop, 'memo.pars', [dict(shared=x) for x in (True, False, None)], run_pars_key,
                  min_obligations=2, notes='cache-key selection and lookup fragment only'),
+        Fragment('fst:FST.own_lines', prop, 'memo.own_lines',
+                 [dict(docstr=d, default=t) for d in (None, True, False, 'strict') for t in (True, False, 'strict')],
+                 run_ownl_key, min_obligations=3, notes='cache-key selection up to the lookup; non-root node with a location'),
     ] + [Fragment(f'fst:FST.{n}', 'C06' if prop == 'C06' else prop, f'coords.{n}',
                   [dict(attr=n, has_loc=h) for h in (True, False)], run_coord)
          for n in ('lineno', 'col_offset', 'end_lineno', 'end_col_offset')]
